@@ -45,6 +45,10 @@ def check(model, rep):
                 'present exactly on the not-locked paths; the stepping loop integrates E[n-1] once per iteration with the '
                 'canonical semi-implicit Euler terms in dt, before propagation (generic no-stale-read rule, shared with '
                 'C01/C02), never at t = 0; stored kinds are checked against the attribute kinds.')
+    # "at every recorded instant", after any history: Powertrain.reset must hand every variable its own fresh list and restore the
+    # attributes from their own first samples (C12's reset rule) - else a rerun records into lists that are no longer one per variable
+    from checks.c12 import check_reset as _check_reset
+    _check_reset(model, rep, R='C03.recorded.reset')
     try:
         rm = run_model(model)
     except CannotDecide as e:
